@@ -125,6 +125,13 @@ theorem startsNot_cons {p : Char → Bool} {c : Char} {cs : Text} (h : p c = fal
     StartsNot p (c :: cs) := by
   intro c' h'; simp at h'; subst h'; exact h
 
+instance (p : Char → Bool) (x : Text) : Decidable (StartsNot p x) :=
+  match x with
+  | [] => isTrue (startsNot_nil p)
+  | c :: _ =>
+    if h : p c = false then isTrue (startsNot_cons h)
+    else isFalse (fun hs => h (hs c rfl))
+
 theorem spanDigits_eq_spanP (s : Text) : spanDigits s = spanP isDigit s := by
   induction s with
   | nil => rfl
